@@ -358,6 +358,25 @@ def histories(ctx, triples):
     ctx.sample({'part': 'history', 'panel': [q for q, _ in p][:6], 'pairs': n * n})
 
 
+def _edit_worker(args):
+    """Serialise, edit in place, serialise again: the output must be that of the equal object built by construction
+    and never serialised before (no rendering survives an edit)."""
+    qn, idx, wide = args
+    from mc.props import c13
+    acc = core.Acc()
+    cls = classes.class_by_name(qn)
+    objs = objects.seed_objects().get(cls, [])
+    if idx >= len(objs):
+        return acc.result()
+    with core.watchdog(1500):
+        n = c13.check_edit_histories(acc, objs[idx], {'part': 'edit', 'cls': qn, 'seed': idx},
+                                     names=('as_json', 'as_markdown', '_asdict'), wide=wide,
+                                     sigprefix='stale_serialisation')
+    acc.count('edit_histories', n)
+    acc.state(core.h64('edit', qn, idx))
+    return acc.result()
+
+
 def run(ctx):
     parts = 64
     ctx.pmap(_object_worker, [(p, parts, 1) for p in range(parts)])
@@ -367,6 +386,12 @@ def run(ctx):
         ['forward', 'reverse', 'rot1', 'rot2', 'rot3', 'rot5', 'rot6', 'byhash', 'byhashrev']
     order_tables(ctx, orders)
     histories(ctx, not ctx.quick)
+    so = objects.seed_objects()
+    eitems = []
+    for cls in classes.parsable_classes():
+        for i in range(min(len(so.get(cls, [])), 3 if ctx.quick else 10 ** 6)):
+            eitems.append((classes.qualname(cls), i, not ctx.quick))
+    ctx.pmap(_edit_worker, eitems)
     ctx.assumptions += ['non-Serializable parsable classes are rendered the way a containing object renders them '
                         '(json.dumps through the library encoder, Serializable._markdown_result)',
                         'hash-seed independence is checked by digest comparison of one subprocess per seed over '
@@ -374,11 +399,19 @@ def run(ctx):
     return ctx.finish(rule='every object within one deviation of every seed object of every class: json.loads, '
                            'markdown is text, deep copy / equal round trip / every insertion order of 2-4 element '
                            'set and dict fields serialise identically; PYTHONHASHSEED in %s; the whole object list serialised in 4 (thorough 9) different orders, one process each; every ordered pair of a '
-                           '%d-object panel vs. a fresh process' % (seeds, len(panel())))
+                           '%d-object panel vs. a fresh process; serialise / edit in place / serialise histories for the first 3 '
+                           '(thorough: all) seed objects of every class' % (seeds, len(panel())))
 
 
 def replay(ctx, w):
     acc = core.Acc()
+    if w.get('part') == 'edit':
+        for wide in (True, False):
+            res = _edit_worker((w['cls'], w['seed'], wide))
+            for v in res[1]:
+                if v['witness'].get('tag') == w.get('tag'):
+                    return v
+        return None
     if w.get('part') == 'object':
         cls = classes.class_by_name(w['cls'])
         seed = objects.seed_objects()[cls][w['seed']]
